@@ -199,6 +199,11 @@ OPEN_SPEC = '''ensures self is Stdin ==> (r matches Ok(i) ==> i is Stdin),
         self is File ==> (r matches Ok(i) ==> !(i is Stdin)),'''
 EXT_SPEC = 'ensures r == ext_format_spec(self),'
 UNSAFE_SPEC = 'ensures r == (format is Msgpack),'
+NAMES_SPEC = '''ensures
+        (s == "j" || s == "json") <==> r matches Ok(Format::Json),
+        (s == "m" || s == "msgpack") <==> r matches Ok(Format::Msgpack),
+        (s == "t" || s == "toml") <==> r matches Ok(Format::Toml),
+        (s == "y" || s == "yaml") <==> r matches Ok(Format::Yaml),'''
 
 LOOP_INV = '''invariant verus_iter.obeys_prophetic_iter_laws(),
             !tr_dirty(&translator),
@@ -242,6 +247,10 @@ ITEMS = [
     dict(src='repo:src/main.rs', kind='fn', name='many', within_impl=r'\bimpl\s*<I>\s+InputPaths\s*<I>', contract=dict()),
     dict(raw='}'),
     dict(src='repo:src/main.rs', kind='fn', name='format_is_unsafe_for_terminal', contract=dict(ret='r', spec=UNSAFE_SPEC)),
+    # the format-name table of -f / -t, for EVERY string (the Kani harness format_names_table covers strings <= 3 B + the long names)
+    dict(src='repo:src/main.rs', kind='fn', name='try_parse_format',
+         contract=dict(ret='r', spec=NAMES_SPEC,
+                       prologue='proof { reveal_strlit("j"); reveal_strlit("json"); reveal_strlit("m"); reveal_strlit("msgpack"); reveal_strlit("t"); reveal_strlit("toml"); reveal_strlit("y"); reveal_strlit("yaml"); }')),
     dict(src='repo:src/main.rs', kind='fn', name='main',
          contract=dict(attrs=['#[verifier::exec_allows_no_decreases_clause]'],   # termination = finiteness of the argument list; not proved
                        prologue='broadcast use group_fmt_xt;',
